@@ -33,6 +33,10 @@ ALL_FEATURE_SETS = [tuple(f for f, b in zip(mirror.ALL_FEATURES, bits) if b)
 SAFETY_MSGS = ('precondition not met', 'possible arithmetic underflow/overflow', 'possible bit shift underflow/overflow',
                'possible division by zero', 'unreachable', 'index out of bounds', 'decreases not satisfied',
                'could not prove termination', 'failed to prove termination')
+# messages of Verus verification failures; every other error is a front-end problem (undecided, never an alarm)
+VERIF_MSGS = SAFETY_MSGS + ('postcondition not satisfied', 'precondition not satisfied', 'assertion failed',
+                            'invariant not satisfied', 'unable to prove', 'not satisfied', 'rlimit', 'Resource limit',
+                            'resource limit')
 UTF8_CTORS = ('from_utf8_unchecked', 'get_unchecked', 'from_u32_unchecked', 'from_utf8_unchecked_mut')
 
 
@@ -280,8 +284,14 @@ def classify(res, text, linemap, units):
         sp = d.get('spans', [])
         prim = [s for s in sp if s.get('is_primary')]
         mirror_spans = [s for s in sp if s.get('file_name', '').endswith('mirror.rs')]
-        if code or not mirror_spans and not any(m in msg for m in ('not satisfied', 'assertion failed', 'possible')):
-            undecided.append('front-end error: %s' % msg)
+        if code or not any(m in msg for m in VERIF_MSGS):
+            # anything that is not a verification failure (syntax / type / mode / unsupported-construct errors,
+            # typically after the source moved away from the annotated baseline) leaves the property undecided
+            where = ''
+            if mirror_spans:
+                o = linemap[mirror_spans[0]['line_start'] - 1]
+                where = ' (at %s)' % (':'.join(str(x) for x in o[1:]) if len(o) > 2 else 'generated text')
+            undecided.append('front-end error: %s%s' % (msg, where))
             continue
         if 'rlimit' in msg.lower() or 'resource limit' in msg.lower():
             undecided.append('resource limit: %s' % msg)
